@@ -13,9 +13,10 @@ import (
 // declaration at the end of a file. The edited bundle stays valid (names new in their scope).
 
 type EditRec struct {
-	Kind   string `json:"kind"`   // field option decl
+	Kind   string `json:"kind"`   // field option decl nested
 	Target string `json:"target"` // file: path of the declaration
 	What   string `json:"what"`
+	Coq    string `json:"coq"` // the same edit as a term of type J5sEdit.edit
 }
 
 // scopeOfMessage rebuilds the name scope of an existing message.
@@ -59,12 +60,40 @@ func scopeOfMessage(path []string, props []*Property, subs []*Nested, inOneof bo
 	return sc
 }
 
+// addr is the address of a message inside a declaration, in the terms of coq/model/J5sEdit.v.
+type addr struct {
+	file, elem int
+	root       string   // AtDecl | (AtRequest m) | (AtResponse m) | (AtTopicMsg reply k)
+	steps      []string // (SInline i) | (SNested k)
+	// the older single-purpose constructor for the same place, when there is one ("" = none)
+	plain string
+}
+
+func (a addr) step(s string) addr {
+	return addr{a.file, a.elem, a.root, append(append([]string{}, a.steps...), s), ""}
+}
+
+func (a addr) in(action string) string {
+	return fmt.Sprintf("EAppendIn %d %d %s %s %s", a.file, a.elem, a.root, list(a.steps), action)
+}
+
+// fieldEdit renders "append property p to the message at a" as a term of type J5sEdit.edit;
+// both spellings of the top-level places are used.
+func (a addr) fieldEdit(r *vh.Rand, p *Property) string {
+	if a.plain != "" && r.Chance(50) {
+		return a.plain + " " + p.Coq()
+	}
+	return a.in("(AField " + p.Coq() + ")")
+}
+
 type msgSite struct {
 	desc    string
 	path    []string
 	props   *[]*Property
 	subs    []*Nested
+	subsPtr *[]*Nested // where a nested declaration can be appended (nil: inline and virtual messages)
 	inOneof bool
+	at      addr
 }
 
 type enumSite struct {
@@ -72,80 +101,105 @@ type enumSite struct {
 	name    string // resolved name
 	e       *Enum
 	symbols func() map[string]bool // symbol set of the enclosing scope, rebuilt on demand
+	edit    func(o string) string  // the Coq edit appending option o
 }
 
 // sites lists every message and enum of the files of pkg.
-func sites(b *Bundle, pkg string) (msgs []msgSite, enums []enumSite, files []*File) {
-	var walkProps func(file string, path []string, props *[]*Property, subs []*Nested, inOneof bool)
-	var walkNested func(file string, path []string, n *Nested, parentSyms func() map[string]bool)
-	walkProps = func(file string, path []string, props *[]*Property, subs []*Nested, inOneof bool) {
-		msgs = append(msgs, msgSite{desc: file + ":" + strings.Join(path, "."), path: path, props: props, subs: subs, inOneof: inOneof})
-		mySyms := func() map[string]bool { return scopeOfMessage(path, *props, subs, inOneof).symbols }
-		for _, p := range *props {
+func sites(b *Bundle, pkg string) (msgs []msgSite, enums []enumSite, files []*File, fileIdx []int) {
+	var walkProps func(file string, path []string, props *[]*Property, subs *[]*Nested, inOneof bool, at addr)
+	var walkNested func(file string, path []string, n *Nested, parentSyms func() map[string]bool, at addr, optEdit func(o string) string)
+	walkProps = func(file string, path []string, props *[]*Property, subsPtr *[]*Nested, inOneof bool, at addr) {
+		var subs []*Nested
+		if subsPtr != nil {
+			subs = *subsPtr
+		}
+		msgs = append(msgs, msgSite{desc: file + ":" + strings.Join(path, "."), path: path, props: props, subs: subs, subsPtr: subsPtr, inOneof: inOneof, at: at})
+		mySyms := func() map[string]bool {
+			var cur []*Nested
+			if subsPtr != nil {
+				cur = *subsPtr
+			}
+			return scopeOfMessage(path, *props, cur, inOneof).symbols
+		}
+		for i, p := range *props {
 			f := p.F
 			if f.Item != nil {
 				f = f.Item
 			}
+			here := at.step(fmt.Sprintf("(SInline %d)", i))
 			switch f.Kind {
 			case "objinline", "oneofinline":
 				n := f.Name
 				if n == "" {
 					n = strcase.ToCamel(p.Name)
 				}
-				walkProps(file, append(append([]string{}, path...), n), &f.Props, nil, f.Kind == "oneofinline")
+				walkProps(file, append(append([]string{}, path...), n), &f.Props, nil, f.Kind == "oneofinline", here)
 			case "enuminline":
 				n := f.Enum.Name
 				if n == "" {
 					n = strcase.ToCamel(p.Name)
 				}
-				enums = append(enums, enumSite{desc: file + ":" + strings.Join(path, ".") + "." + n, name: n, e: f.Enum, symbols: mySyms})
+				enums = append(enums, enumSite{desc: file + ":" + strings.Join(path, ".") + "." + n, name: n, e: f.Enum, symbols: mySyms,
+					edit: func(o string) string { return here.in("(AOption " + S(o) + ")") }})
 			}
 		}
-		for _, s := range subs {
-			walkNested(file, path, s, mySyms)
+		for k, s := range subs {
+			here := at.step(fmt.Sprintf("(SNested %d)", k))
+			walkNested(file, path, s, mySyms, here, func(o string) string { return here.in("(AOption " + S(o) + ")") })
 		}
 	}
-	walkNested = func(file string, path []string, n *Nested, parentSyms func() map[string]bool) {
+	walkNested = func(file string, path []string, n *Nested, parentSyms func() map[string]bool, at addr, optEdit func(o string) string) {
 		if n.Kind == "enum" {
-			enums = append(enums, enumSite{desc: file + ":" + strings.Join(append(append([]string{}, path...), n.Enum.Name), "."), name: n.Enum.Name, e: n.Enum, symbols: parentSyms})
+			enums = append(enums, enumSite{desc: file + ":" + strings.Join(append(append([]string{}, path...), n.Enum.Name), "."), name: n.Enum.Name, e: n.Enum, symbols: parentSyms, edit: optEdit})
 			return
 		}
-		walkProps(file, append(append([]string{}, path...), n.Name), &n.Props, n.Subs, n.Kind == "oneof")
+		walkProps(file, append(append([]string{}, path...), n.Name), &n.Props, &n.Subs, n.Kind == "oneof", at)
 	}
-	for _, f := range b.Files {
+	for fi, f := range b.Files {
 		if f.Package() != pkg {
 			continue
 		}
 		files = append(files, f)
+		fileIdx = append(fileIdx, fi)
 		pkgSyms := func() map[string]bool { return packageSymbols(b, pkg) }
-		for _, e := range f.Elements {
+		for ei, e := range f.Elements {
+			fi, ei := fi, ei
 			switch e.Kind {
-			case "object", "oneof", "enum":
-				walkNested(f.Path(), nil, e.N, pkgSyms)
+			case "object", "oneof":
+				walkNested(f.Path(), nil, e.N, pkgSyms, addr{fi, ei, "AtDecl", nil, fmt.Sprintf("EAppendField %d %d", fi, ei)}, nil)
+			case "enum":
+				walkNested(f.Path(), nil, e.N, pkgSyms, addr{}, func(o string) string { return fmt.Sprintf("EAppendOption %d %d %s", fi, ei, S(o)) })
 			case "service":
-				for _, m := range e.Service.Methods {
-					walkProps(f.Path()+"/service", []string{m.Name + "Request"}, &m.Request, nil, false)
+				for mi, m := range e.Service.Methods {
+					walkProps(f.Path()+"/service", []string{m.Name + "Request"}, &m.Request, nil, false,
+						addr{fi, ei, fmt.Sprintf("(AtRequest %d)", mi), nil, fmt.Sprintf("EAppendRequestField %d %d %d", fi, ei, mi)})
 					if m.HasResp {
-						walkProps(f.Path()+"/service", []string{m.Name + "Response"}, &m.Response, nil, false)
+						walkProps(f.Path()+"/service", []string{m.Name + "Response"}, &m.Response, nil, false,
+							addr{fi, ei, fmt.Sprintf("(AtResponse %d)", mi), nil, fmt.Sprintf("EAppendResponseField %d %d %d", fi, ei, mi)})
 					}
 				}
 			case "topic":
 				t := e.Topic
-				add := func(tname string, l []*Tmsg) {
-					for _, tm := range l {
+				add := func(tname string, l []*Tmsg, reply bool) {
+					for k, tm := range l {
 						mn := tname
 						if tm.Name != nil {
 							mn = *tm.Name
 						}
-						walkProps(f.Path()+"/topic", []string{mn + "Message"}, &tm.Fields, nil, false)
+						plain := ""
+						if !reply {
+							plain = fmt.Sprintf("EAppendTopicField %d %d %d", fi, ei, k)
+						}
+						walkProps(f.Path()+"/topic", []string{mn + "Message"}, &tm.Fields, nil, false,
+							addr{fi, ei, fmt.Sprintf("(AtTopicMsg %s %d)", coqBool(reply), k), nil, plain})
 					}
 				}
 				switch t.Kind {
 				case "reqres":
-					add(t.Name+"Request", t.Req)
-					add(t.Name+"Reply", t.Reply)
+					add(t.Name+"Request", t.Req, false)
+					add(t.Name+"Reply", t.Reply, true)
 				default:
-					add(t.Name, t.Msgs)
+					add(t.Name, t.Msgs, false)
 				}
 			}
 		}
@@ -233,7 +287,7 @@ func ApplyEdits(r *vh.Rand, b *Bundle, pkg string, n int) []EditRec {
 	g := NewGen(r, cfg)
 	var recs []EditRec
 	for len(recs) < n {
-		msgs, enums, files := sites(b, pkg)
+		msgs, enums, files, fileIdx := sites(b, pkg)
 		switch k := r.Intn(100); {
 		case k < 12 && len(msgs) > 0: // field with an inline type named like a type the message already refers to
 			var cands []msgSite
@@ -260,7 +314,30 @@ func ApplyEdits(r *vh.Rand, b *Bundle, pkg string, n int) []EditRec {
 			p := &Property{Name: g.fieldName(sc), F: &Field{Kind: "objinline", Name: names[i],
 				Props: []*Property{{Name: "v", F: &Field{Kind: "scalar", Scalar: &Scalar{Kind: "string"}}}}}}
 			*site.props = append(*site.props, p)
-			recs = append(recs, EditRec{"field", site.desc, p.Name + " objinline named like referenced type " + names[i]})
+			recs = append(recs, EditRec{"field", site.desc, p.Name + " objinline named like referenced type " + names[i], site.at.fieldEdit(r, p)})
+		case k < 22 && len(msgs) > 0: // field referring to a well-known type - also the type of the implicit leading field of a topic message
+			var cands []msgSite
+			for _, m := range msgs {
+				if strings.HasSuffix(m.desc[:strings.Index(m.desc, ":")], "/topic") || r.Chance(25) {
+					cands = append(cands, m)
+				}
+			}
+			if len(cands) == 0 {
+				continue
+			}
+			site := vh.Pick(r, cands)
+			sc := scopeOfMessage(site.path, *site.props, site.subs, site.inOneof)
+			w := vh.Pick(r, ImplicitTypes)
+			if strings.Contains(site.desc, "/topic:") && r.Chance(70) {
+				w = vh.Pick(r, [][2]string{{"j5.messaging.v1", "RequestMetadata"}, {"j5.messaging.v1", "UpsertMetadata"}})
+			}
+			f := &Field{Kind: "objref", Ref: &Ref{Pkg: w[0], Name: w[1]}}
+			if !site.inOneof && r.Chance(20) {
+				f = &Field{Kind: "array", Item: f}
+			}
+			p := &Property{Name: g.fieldName(sc), F: f}
+			*site.props = append(*site.props, p)
+			recs = append(recs, EditRec{"field", site.desc, p.Name + " ref to implicit type " + w[1], site.at.fieldEdit(r, p)})
 		case k < 55 && len(msgs) > 0: // field
 			site := vh.Pick(r, msgs)
 			sc := scopeOfMessage(site.path, *site.props, site.subs, site.inOneof)
@@ -269,8 +346,26 @@ func ApplyEdits(r *vh.Rand, b *Bundle, pkg string, n int) []EditRec {
 				continue
 			}
 			*site.props = append(*site.props, p)
-			recs = append(recs, EditRec{"field", site.desc, p.Name + " " + p.F.Kind})
-		case k < 75 && len(enums) > 0: // option
+			recs = append(recs, EditRec{"field", site.desc, p.Name + " " + p.F.Kind, site.at.fieldEdit(r, p)})
+		case k < 62 && len(msgs) > 0: // nested declaration at the end of a declared object / oneof
+			var cands []msgSite
+			for _, m := range msgs {
+				if m.subsPtr != nil && len(m.path) < 3 {
+					cands = append(cands, m)
+				}
+			}
+			if len(cands) == 0 {
+				continue
+			}
+			site := vh.Pick(r, cands)
+			sc := scopeOfMessage(site.path, *site.props, *site.subsPtr, site.inOneof)
+			nd := g.nestedDecl(sc.symbols, site.path, len(site.path), false)
+			if nd == nil {
+				continue
+			}
+			*site.subsPtr = append(*site.subsPtr, nd)
+			recs = append(recs, EditRec{"nested", site.desc, nd.Kind + " " + nd.Name, site.at.in("(ASub " + nd.Coq() + ")")})
+		case k < 78 && len(enums) > 0: // option
 			site := vh.Pick(r, enums)
 			syms := site.symbols()
 			pfx := site.e.Prefix
@@ -299,9 +394,10 @@ func ApplyEdits(r *vh.Rand, b *Bundle, pkg string, n int) []EditRec {
 				continue
 			}
 			site.e.Opts = append(site.e.Opts, o)
-			recs = append(recs, EditRec{"option", site.desc, o})
+			recs = append(recs, EditRec{"option", site.desc, o, site.edit(o)})
 		default: // declaration
-			f := vh.Pick(r, files)
+			fk := r.Intn(len(files))
+			f := files[fk]
 			st := &pkgState{name: pkg, symbols: packageSymbols(b, pkg)}
 			st.svcSyms, st.topSyms = subPackageSymbols(b, pkg)
 			g.cur, g.curFile, g.fileName, g.imports = st, f, f.Path()+".proto", map[string]string{}
@@ -322,7 +418,7 @@ func ApplyEdits(r *vh.Rand, b *Bundle, pkg string, n int) []EditRec {
 				continue
 			}
 			f.Elements = append(f.Elements, e)
-			recs = append(recs, EditRec{"decl", f.Path(), e.Kind})
+			recs = append(recs, EditRec{"decl", f.Path(), e.Kind, fmt.Sprintf("EAppendDecl %d %s", fileIdx[fk], e.Coq())})
 		}
 	}
 	return recs
